@@ -300,6 +300,8 @@ class DataFlow(FlowBase):
         sig = {"task_is_join": self.ref.d.is_join(offer["id"])}
         if kind == "wrong_value":
             ev, gv = b["expected"], b["offered"]
+            bnd = run[2].get(var) if run[2] else None
+            sig["variable_republished"] = bool(bnd and bnd[2])
             sig["offered_is_deep_merge_of_older_dict"] = bool(
                 isinstance(ev, dict) and isinstance(gv, dict) and set(ev) < set(gv)
                 and all(gv[k] == ev[k] for k in ev))
